@@ -114,6 +114,19 @@ def c14_faults(r, seed, tier, model_ok):
             if got.startswith("HOST"): bad.append(dict(program=prog, history=f"{mode} {pre} {fault}", impl=got, model="a value or a language-level exception", which=["host"]))
             elif not wrote and disk != init: bad.append(dict(program=prog, history=f"{mode} {pre} {fault}", impl=f"disk changed to {disk!r}", model=f"disk stays {init!r}", which=["disk"]))
             os.remove(fn)
+        # opening itself: descriptors and paths that open() rejects before the operating system is asked (negative / oversized descriptors,
+        # NUL in a path, over-long names), and the usual operating-system refusals (missing, directory, closed descriptor)
+        os.makedirs("dir", exist_ok=True)
+        targets = [(E(v), f"fd {v}") for v in (-1, -5, 99999, 2**31 - 1, 2**31, 2**32, 2**63, 2**64, 2**70)] + \
+                  [(st(p), f"path {p[:20]!r}") for p in ("", "a\0b", "\0", "x" * 300, "y" * 5000, "dir", "dir/", "none/none", "none", ".", "/", "/proc/self/mem", "\udcff" if False else "뷁/뷁")]
+        for tgt, what in targets:
+            for mw in MODES.values():
+                prog = f"{tgt} {mw} ㄱㄴㅎㄷ"; got, _ = run_main(prog); n += 1; dist[got.split()[0] + ":open-" + what.split()[0]] += 1
+                if got.startswith("HOST"): bad.append(dict(program=prog, history=f"open {what} mode {mw}", impl=got, model="a value or a language-level exception", which=["host"]))
+                prog2 = f"({tgt} {mw} ㄱㄴㅎㄷ) (ㄱㅇㄱ ㄱㅅㅎㄴ ㅎ) (ㄱ ㄱㅅㅎㄴ ㅎ) ㄱㄹㅎㄹ"; got2, _ = run_main(prog2); n += 1
+                if got2.startswith("HOST"): bad.append(dict(program=prog2, history=f"open {what} mode {mw} under a reject handler", impl=got2, model="a value or a language-level exception", which=["host"]))
+                for leftover in ("none", "x" * 300):
+                    if os.path.exists(leftover): os.remove(leftover)
     finally:
         os.chdir(cwd); shutil.rmtree(d, ignore_errors=True)
     r.slice("file_faults", n, n, ["mode x (0..2 harmless ops | close) x one forbidden / malformed operation"], dict(dist), "fault injection over handle states; oracle: never a host exception, disk unchanged unless a permitted write", bad[:40])
@@ -243,6 +256,13 @@ def c15_semantics(r, seed, tier, model_ok):
                                ("two-expressions-retry", "(ㅅ ㅂㅎㄴ) ((ㅅ ㅂㅎㄴ) ㅎ) ㅅㄷㅎㄷ"), ("empty-again", f"{strlit('empty')} ㅂㅎㄴ"), ("empty-again2", f"{strlit('empty')} ㅂㅎㄴ")]:
                 got = ev(prog); n += 1; cnt[what + ":" + got.split()[0]] += 1
                 if not got.startswith("E 5,"): bad.append(dict(program=prog + "   (second / later import of a module that is not exactly one expression, same process)", impl=got, model=f"the same language-level exception every time ({what})", which=["bad_module_again"]))
+            # malformed path strings AFTER a module file has been imported in the same process (the registry is not empty): still language errors
+            MOD._MODULE_REGISTRY.clear(); ev(by_path)
+            for what, pth in [("nul-in-path", "a\0b"), ("only-nul", "\0"), ("empty-path", ""), ("overlong-path", "z" * 5000), ("nul-after-dir", "ㄴ/\0")]:
+                prog = f"{strlit(pth)} ㅂㅎㄴ"; got = ev(prog); n += 1; cnt["after-import-" + what + ":" + got.split()[0]] += 1
+                if not got.startswith("E 5,"): bad.append(dict(program=f"{by_path} ; then  {prog}   (second import, same process)", impl=got, model=f"language-level exception ({what})", which=["bad_module"]))
+                got = ev(f"({prog}) ((ㅈㅈㄱ) ㅎ) ㅅㄷㅎㄷ"); n += 1
+                if got != "V 63": bad.append(dict(program=f"{by_path} ; then  ({prog}) ((ㅈㅈㄱ) ㅎ) ㅅㄷㅎㄷ", impl=got, model=f"V 63: the handler runs ({what})", which=["bad_module"]))
             os.chdir(SCR); shutil.rmtree(d, ignore_errors=True)
     finally:
         os.chdir(cwd); shutil.rmtree(SCR, ignore_errors=True); MOD._MODULE_REGISTRY.clear()
@@ -285,6 +305,11 @@ def c20_isolation(r, seed, tier, model_ok):
     for t in ["ㅂ ((ㅂ ㅅ ㅂㅎㄷ) (ㅂ ㄱ ㅅㅈㅎㄷ) ㄷㅎㄷ) ㅎㄴ", "ㅂ ㅅ ㅂ ㅂㅎㄹ ㅂ ㅅ ㅂㄹ ㄱ ㅂㅎㅁ ㅎㄴ", "ㄱ ((ㅂ ㅂㄷ ㅂㅎㄷ) (ㄱ ㄴ ㅅㅈㅎㄷ) ㄷㅎㄷ) ㅎㄴ", "ㄹ ㅂ (ㅂ ㅂㄷ ㄱ ㅂㅎㄹ) ㅎㄷ",
               "ㄱ ((ㅂ ㅅ ㅂㄹ ㅂㅎㄹ) (ㄱ ㄴ ㅅㅈㅎㄷ) ㄷㅎㄷ) ㅎㄴ", "ㄷ ㅅㅅㅎㄴ ㅂ ㅅ ㅂㄹ ㄱ ㅂㅎㅁ ㅎㄴ", "ㄴ ((ㄴ ㄷ ㅅㅈㅎㄷ) (ㄴ ㄹ ㅅㅈㅎㄷ) ㄷㅎㄷ) ㅎㄴ", "ㅂ ㅂ ㅂㅎㄷ ㅂ ㅂ ㅂㅎㄷ ㄴㅎㄷ",
               "(ㄱㅇㄱ (ㄴ ㅁ ㅅㅈㅎㄷ) ㄷㅎㄷ ㄱㅇㄱ ㅁㄹㅎㄷ ㅎ) (ㄴ ㄷ ㅅㅈㅎㄷ) ㅎㄴ ㅁㅈ ㅁㄷㅎㄷ" ] * 2: progs.append(dict(text=t))
+    # ill-typed calls: built-ins that check several arguments at once, given 2-3 arguments of DIFFERENT kinds - the message names what it was given
+    ATOMS = ["ㄷ", "(ㄷ ㅅㅅㅎㄴ)", "(ㄷ ㅁㅈㅎㄴ)", "(ㅂㄱㅎㄱ)", "(ㅈㅈㅎㄱ)", "(ㄴ ㄷ ㅁㄹㅎㄷ)", "(ㄴ ㄷ ㅅㅈㅎㄷ)", "(ㄱㅇㄱ ㅎ)", "(ㄴ ㄷㅂㅎㄴ)", "(ㄱ ㄱㅅㅎㄴ)", "(ㄷ ㅁㅈㅎㄴ ㄱ ㄴ ㅂ ㅂ ㅂㅎㄷ ㅎㄷ ㅎㄴ)"]
+    OPS = ["ㅈ", "ㄴㄴ", "ㄴㅁ", "ㅅ", "ㄷ", "ㄱ", "ㄴ", "ㅁㅈ", "ㅂㅈ", "ㅅㄹ", "ㅁㄷ", "ㅅㅂ", "ㅈㄷ", "ㅈㄹ", "ㄱㄹ", "ㅅㅅ", "ㅈㅅ", "ㅂㄹ", "ㄱㄴ", "(ㅂ ㅂㄷ ㄱ ㅂㅎㄹ)", "(ㅂ ㅂㄷ ㄷ ㅂㅎㄹ)", "(ㅂ ㅂㄷ ㅂ ㅂㅎㄹ)", "(ㅂ ㅅ ㅂㄹ ㄱ ㅂㅎㅁ)", "(ㅂ ㅅ ㄱㅅ ㅂㅎㄹ)", "(ㅂ ㅅ ㅈㄱ ㅂㅎㄹ)"]
+    for _ in range(N(tier, 150, 1500)):
+        k = R.randrange(1, 4); args = R.sample(ATOMS, k); progs.append(dict(text=" ".join(args) + " " + R.choice(OPS) + " ㅎ" + E(k)))
     progs += [dict(text="ㄴ ㄷ ㄷ\nㅎㄷ"), dict(text="ㄴ ㄷ ㄱ\nㅎㄷ"), dict(text="ㄴ ㄷ ㄴ\nㅎㄷ"), dict(text="ㄴ ㄷ (ㄱㅇㄱ ㅎ)\nㅎㄷ")]
     uniq = list({(p["text"], p.get("stdin", "")): p for p in progs}.values())
     try:
